@@ -86,7 +86,7 @@ _OPEN = [("open_euclidean_on_euclidean", "quick"), ("open_euclidean_on_cosine", 
          ("open_manhattan_on_manhattan", "quick"), ("open_dot_on_dot", "quick"), ("open_bqe_on_bqe", "quick"), ("open_bqc_on_bqc", "quick"),
          ("open_bqm_on_bqm", "quick"), ("open_cosine_on_euclidean", "thorough"), ("open_bqe_on_euclidean", "thorough")]
 for _n, _t in _OPEN:
-    K(_n, ["C06", "C16"] if "_on_" in _n else ["C06"], RDF,
+    K(_n, ["C06", "C16"] if _n in ("open_euclidean_on_euclidean", "open_cosine_on_cosine", "open_manhattan_on_manhattan", "open_dot_on_dot", "open_bqe_on_bqe", "open_bqc_on_bqc", "open_bqm_on_bqm") else ["C06"], RDF,
       "Reader::open = MissingMetadata iff no metadata record; else UnmatchingDistance iff stored name != D::name(); else NeedBuild iff any updated mark of the index; else Ok with the metadata's dimension/items/roots (%s)" % _n,
       "store: 2 arbitrary entries + optional metadata record (reference encoding, concrete stored name; dims/items/root symbolic)",
       tier=_t, site="Reader::open")
@@ -96,6 +96,35 @@ K("reader_item_vector_contains", ["C05"], RDF,
 K("query_rejections", ["C19", "C03"], RDF,
   "by_vector with len != dim => InvalidVecDimension{expected: dim, received: len}; by_item(unknown id) => Ok(None)",
   "dim 1..=4, len 0..=6, store: 3 arbitrary entries", site="QueryBuilder::by_vector/by_item")
+
+# ---------------------------------------------------------------- value codecs (C16)
+NDF = ["node.verif_node.rs"]
+K("split_codec_layout_roundtrip", ["C16"], NDF,
+  "split node encodes to 2|left(kind,id_be)|right(kind,id_be)|normal bytes and decodes back field for field",
+  "all child kinds/ids, all 8 normal bytes (dim 2)", site="NodeCodec split")
+K("node_id_bytes", ["C16"], NDF, "NodeId::to_bytes/from_bytes: kind byte then id big-endian, tail returned untouched",
+  "all (kind, u32)", site="NodeId")
+for _n in ("leaf_codec_euclidean", "leaf_codec_cosine", "leaf_codec_dot_product", "leaf_codec_bq_cosine"):
+    K(_n, ["C16", "C05"], NDF, "leaf = 0|header (Pod bytes, 4 or 8)|vector bytes verbatim: decode(reference bytes) re-encodes to the same bytes (%s)" % _n,
+      "all header bytes, 8 vector bytes", site="NodeCodec leaf")
+K("bucket_codec_tag_roundtrip", ["C16"], NDF, "bucket = 1|serialised bitmap; decode keeps the id set",
+  "all 64-bit sets of the bit-set model (real roaring wire format is outside the claim)", site="NodeCodec bucket")
+K("version_codec_layout", ["C16", "C17"], NDF, "version = 3 x u32 big-endian, round trip", "all values", site="VersionCodec")
+K("metadata_codec_layout", ["C16", "C06"], NDF,
+  "metadata = name|0|dim_be|bitmap_len_be|bitmap|roots (native-endian u32s), round trip",
+  "name 'cosine', all dims, all 64-bit item sets, 2 arbitrary roots", site="MetadataCodec")
+
+# ---------------------------------------------------------------- build options (C15)
+OPF = ["writer.verif_opts.rs"]
+K("fit_in_descendant_contract", ["C15"], OPF, "fit_in_descendant(n) <=> n <= split_after.unwrap_or(dimensions)",
+  "all (dim, split_after, n)", site="Writer::fit_in_descendant")
+K("target_n_trees_contract", ["C15"], OPF,
+  "target_n_trees returns an explicit n_trees as is; the automatic choice is >= 1 whenever there are more items than one bucket holds",
+  "dim 1..=4096, item sets over 64 ids, 0..=3 existing roots", site="target_n_trees",
+  clause="automatic tree count is zero")
+K("single_leaf_shortcut_contract", ["C15", "C01", "C06", "C07"], OPF,
+  "clear_db_and_create_a_single_leaf leaves exactly Tree(0)=bucket(items) (or no tree key), metadata (name, dim, items, roots=[0]|[]), a version record; every other key untouched",
+  "store: 3 arbitrary entries (<= 12-byte values); all 64-bit item sets; dim 1..=65535", site="Writer::clear_db_and_create_a_single_leaf")
 
 PROPS = {}
 
@@ -171,6 +200,15 @@ P("C19", "Rejected calls have no effect",
   bounds={"store": "<= 6 entries", "dimension": "1..=4", "vector length": "0..=6"},
   outside_claim=["LMDB's actual MDB_APPEND behaviour (model contract)"],
   assumptions=["environment models are faithful for the calls arroy makes"])
+P("C15", "Build options are honoured: tree count and bucket capacity",
+  "bounded model checking (Kani/CBMC) of target_n_trees / fit_in_descendant / the single-bucket shortcut; MIR symbolic execution (z3) of the tree-step capacity clauses",
+  "Bounded model checking of the option arithmetic and of the single-bucket shortcut's post-state; the capacity clause of the tree steps is decided by the MIR executor (E2).",
+  stubs_and_models=STD_STUBS + MODELS,
+  functions_encoded=["writer::target_n_trees", "Writer::fit_in_descendant", "Writer::clear_db_and_create_a_single_leaf"],
+  bounds={"dimension": "1..=4096", "items": "sets over 64 ids", "roots": "<= 3"},
+  outside_claim=["reader-visible counts after a real build (composition)"],
+  assumptions=["environment models are faithful for the calls arroy makes"])
+claim("C15")
 claim("C05")
 claim("C06")
 claim("C07")
